@@ -3,10 +3,9 @@
 * the opcodes `make_traceback_f` swaps for symbolic versions (`MY_OPCODES` of the closure: opcode number, which
   `make_op_*` product sits there, its `stack_size` attribute);
 * the solvers registered with `BitcoinConstraintSolver`, in registration (= matching) order, each identified by its pattern;
-* the atom name templates of `DynamicStack` / `determine_constraints` and the validation flags the symbolic run uses.
+* the validation flags the symbolic run uses (`check_solution` is called without flags).
 
 A function or pattern the translator does not recognise is emitted as `unknown`: the model refuses to run it."""
-import inspect
 
 
 def _closure(f):
@@ -37,7 +36,7 @@ KNOWN_PATTERNS = {
 
 def generate():
     from pycoin.solve.constraints import make_traceback_f
-    from pycoin.coins.bitcoin.Solver import BitcoinConstraintSolver, DynamicStack, Solver
+    from pycoin.coins.bitcoin.Solver import BitcoinConstraintSolver
     from pycoin.coins.bitcoin.ScriptTools import BitcoinScriptTools
     from pycoin.coins.bitcoin.SolutionChecker import BitcoinSolutionChecker
 
@@ -71,16 +70,6 @@ def generate():
     out.append("/-- `BitcoinConstraintSolver._solvers_for_patterns` in registration order (the order `solutions_for_constraint` tries them) -/")
     out.append("def solverOrder : List SolverId := [%s]\n" % ", ".join(ids))
 
-    # DynamicStack defaults and the templates determine_constraints uses
-    sig = inspect.signature(DynamicStack.__init__)
-    out.append("/-- default `fill_template` of `DynamicStack` -/")
-    out.append('def fillTemplateDefault : String := "%s"' % sig.parameters["fill_template"].default)
-    src = inspect.getsource(Solver.determine_constraints)
-    for name, needle in (("usesXTemplate", 'fill_template = "x_%d"'), ("usesWTemplate", 'fill_template = "w_%d"'),
-                         ("witnessAtomsW1W0", 'Atom("w_%d" % (1 - _)) for _ in range(2)'),
-                         ("closingX0", 'Operator("EQUAL", Atom("x_0"), underlying_script)'),
-                         ("closingW0", 'Operator("EQUAL", Atom("w_0"), underlying_script_wit)')):
-        out.append("def %s : Bool := %s" % (name, "true" if needle in src else "false"))
     out.append("/-- `check_solution(tx_context, traceback_f=…)` is called without flags: `DEFAULT_FLAGS` -/")
     out.append("def runFlags : Nat := %d" % BitcoinSolutionChecker.DEFAULT_FLAGS)
     out.append("\nend Pycoin.Gen.Solve\n")
